@@ -478,7 +478,8 @@ func goNumberOf(v interface{}) *decimal.Big {
 	return nil
 }
 
-var basicNumberKind = []reflect.Kind{reflect.Int8, reflect.Int16, reflect.Int32, reflect.Int64, reflect.Int, reflect.Float32, reflect.Float64}
+var basicNumberKind = []reflect.Kind{reflect.Int8, reflect.Int16, reflect.Int32, reflect.Int64, reflect.Int, reflect.Float32, reflect.Float64,
+	reflect.Uint8, reflect.Uint16, reflect.Uint32, reflect.Uint64, reflect.Uint}
 
 func isBasicNumberKind(kind reflect.Kind) bool {
 	for _, k := range basicNumberKind {
@@ -491,6 +492,21 @@ func isBasicNumberKind(kind reflect.Kind) bool {
 
 func convToBasicNumber(source interface{}, target reflect.Type) (interface{}, error) {
 	if v, ok := source.(*decimal.Big); ok {
+		if k := target.Kind(); k >= reflect.Uint && k <= reflect.Uint64 {
+			// unsigned parameters are Go integers too: the truncated value, or nothing when it is
+			// negative or too large (func(n uint8) could not be called with any number at all)
+			if v.IsFinite() {
+				t := toIntegral(v, decimal.ToZero)
+				uv, fits := uint64(0), true // (-0.9 truncates to a zero that carries a sign)
+				if t.Sign() != 0 {
+					uv, fits = uint64Of(t)
+				}
+				if fits && t.Sign() >= 0 && !reflect.Zero(target).OverflowUint(uv) {
+					return reflect.ValueOf(uv).Convert(target).Interface(), nil
+				}
+			}
+			return nil, fmt.Errorf("convToBasicNumber %v does not fit %v", v, target)
+		}
 		if k := target.Kind(); k != reflect.Float32 && k != reflect.Float64 {
 			// an integer parameter takes the truncated value or nothing: 300 reached an int8 as 44,
 			// and 1e30, infinity and NaN reached an int64 as -9223372036854775808
@@ -1443,6 +1459,19 @@ func int64Of(v *decimal.Big) (int64, bool) {
 		}
 	}
 	return v.Int64()
+}
+
+// uint64Of is int64Of for unsigned targets.
+func uint64Of(v *decimal.Big) (uint64, bool) {
+	if v.IsFinite() && v.Sign() != 0 {
+		if v.Scale() < -64 {
+			return 0, false
+		}
+		if v.Scale()-v.Precision() > 64 {
+			return 0, true
+		}
+	}
+	return v.Uint64()
 }
 
 // mathContext is the 16-digit working context of sqrt, exp, ln and log, over the decimal
